@@ -4,6 +4,7 @@ A case is a start layout (capacity, front position, contents, junk filling of
 the unoccupied slots, fault plan) plus a list of operations. All random
 choices derive from one SplitMix64 state seeded by VERIF_SEED.
 """
+import re
 
 import itertools
 
@@ -70,6 +71,34 @@ class Case:
              else ",".join(map(str, self.vals))) if self.vals else "-",
             self.junk, self.fault, 1 if dbg else 0, NID, " unst=1" if unst else "")
         return hdr + "\n" + "\n".join(self.ops) + "\nend\n"
+
+
+class DryCase(Case):
+    """stands in for a case while a family is enumerated: element lists are placeholders, made real (fresh ids from
+    the case that ends up carrying the operation) by [materialise]; long element lists are then only built for the
+    operations that are kept"""
+    __slots__ = ()
+
+    def e(self, val=None):
+        return "\x00e%s\x00" % ("" if val is None else val)
+
+    def es(self, n, vals=None):
+        if n == 0:
+            return "-"
+        if vals is not None:
+            return ",".join(self.e(vals[i]) for i in range(n))
+        return "\x00s%d\x00" % n
+
+
+_PLACE = re.compile("\x00([es])(\\d*)\x00")
+
+
+def materialise(c, op):
+    def f(m):
+        if m.group(1) == "e":
+            return c.e(int(m.group(2)) if m.group(2) else None)
+        return c.es(int(m.group(2)))
+    return _PLACE.sub(f, op)
 
 
 def layouts(N):
@@ -354,6 +383,8 @@ def wide_ops(c, N, sz, r, kind):
     I = sparse(N, sz, r)
     lens = sorted({0, 1, 2, max(N - sz - 1, 0), N - sz, N - sz + 1, N - 1, N, N + 1, min(2 * N + 1, 600)} |
                   {t + d for t in STEERED if t <= (1 << 17) and N <= 100 for d in (0, 1)})
+    if kind == "push":
+        return fam_push(c, N, sz)
     if kind in ("mut", "all"):
         out += fam_push(c, N, sz) + fam_pop(c, N, sz) + ["clear", "make_contiguous -"]
         for i in I:
@@ -398,16 +429,22 @@ def wide_io(c, N, sz, r, fams=("std",)):
     return out
 
 
+STEER_LIMIT = {"E": 1 << 21, "u8": 1 << 22, "NE": 8200, "B": 600, "NB": 600}   # as harness/build.rs instantiates them
+
+
 def wide_cases(g, Ns, kind, elem="E", fault="none", suffix=("new",), layouts_per_n=6, junk=3, fams=("std",), every=1):
     """one case per (capacity, layout, operation); [every] > 1 keeps a seeded subsample"""
     r = g.rng
+    # capacities the changed source text points at (check.py's steered search) are always part of the list
+    Ns = list(Ns) + [t for t in sorted(STEERED) if t not in Ns and t <= STEER_LIMIT.get(elem, 0)]
     for N in Ns:
         for (st, sz) in wide_layouts(N, r, layouts_per_n):
             vals = [(v if v != 13 else 14) for v in (((7 * i + 3) % 251) for i in range(sz))] if elem == "u8" else default_vals(sz)
-            probe = Case(0, N, st, vals, elem=elem)
+            probe = DryCase(0, N, st, vals, elem=elem)
             mk = (lambda c: wide_io(c, N, sz, Rng(N * 1000 + st * 7 + sz), fams)) if kind == "io" else \
                  (lambda c: wide_ops(c, N, sz, Rng(N * 1000 + st * 7 + sz), kind))
-            n = len(mk(probe))
+            dry = mk(probe)
+            n = len(dry)
             # large capacities: every case carries the whole contents; keep about 100 operations per layout
             ev = max(every, n // 100) if N > 1000 else every
             if N in STEERED:
@@ -416,7 +453,7 @@ def wide_cases(g, Ns, kind, elem="E", fault="none", suffix=("new",), layouts_per
                 if ev > 1 and not r.chance(1, ev):
                     continue
                 c = g.new(N, st, vals, junk=junk, fault=fault, elem=elem, tag="wide")
-                c.ops = [mk(c)[k]] + list(suffix)
+                c.ops = [materialise(c, dry[k])] + list(suffix)
 
 
 def wide_eq(g, Ns, every=1, layouts_per_n=4):
